@@ -159,7 +159,7 @@ Fixpoint tbl_decref (k : pyval) (n : Z) (t : table) : table :=
 (* ------------------------------------------------------------------ events *)
 Inductive nop :=
 | OpCall | OpRepr | OpStr | OpHash | OpDir | OpIter | OpIslice | OpBool | OpDict | OpRaise | OpCmp | OpIndex
-| OpIsinstance | OpGetMethods | OpIdPack | OpHasConn | OpPickle | OpFuncStr.
+| OpIsinstance | OpGetMethods | OpIdPack | OpHasConn | OpPickle | OpFuncStr | OpEq.
 
 Inductive event :=
 | EMsg                                          (* the next message is taken from the channel *)
@@ -230,7 +230,7 @@ Inductive hexp :=
 | XIfNone (c t e : hexp)                    (* t if c is None else e *)
 | XIfHasConn (ty : bool) (c t e : hexp)     (* t if hasattr(c, '____conn__') else e; ty: the test is on type(c) *)
 | XForward (c : hexp) (h : Z) (a : hexp)    (* c.____conn__.sync_request(h, a) *)
-| XCtxArgs (e : hexp).                      (* the (exc, typ, tb) triple computed by _handle_ctxexit *)
+| XCtxArgs (load : bool) (e : hexp).        (* the (exc, typ, tb) triple computed by _handle_ctxexit; load: raise self._unbox_exc(exc) instead of raise exc *)
 Record hdef := { h_min : nat; h_defaults : list hexp; h_body : hexp }.
 
 Definition P0 := XParam 0. Definition P1 := XParam 1. Definition P2 := XParam 2.
@@ -259,7 +259,7 @@ Definition handlers : list (string * hdef) :=
    ("setattr", {| h_min := 3; h_defaults := []; h_body := XAccess PSet P0 P1 (tup1 P2) |});
    ("callattr", {| h_min := 3; h_defaults := [XUnit]; h_body := XLet (get_attr P0 P1) (XCall (XLocal 0) XTup0 P2 P3) |});
    ("ctxexit", {| h_min := 2; h_defaults := [];
-                  h_body := XLet (XCtxArgs P1) (XCall (get_attr P0 (XText "__exit__")) XTup0 (XLocal 0) XUnit) |});
+                  h_body := XLet (XCtxArgs true P1) (XCall (get_attr P0 (XText "__exit__")) XTup0 (XLocal 0) XUnit) |});
    ("instancecheck", {| h_min := 2; h_defaults := [];
                         h_body := XIfHasConn false P0 (XForward P0 16 P1) (XOp OpIsinstance P0 P1) |});
    ("pickle", {| h_min := 2; h_defaults := []; h_body := XGuardCfg "allow_pickle" ValueError (XOp OpPickle P0 P1) |});
@@ -709,6 +709,36 @@ Definition decref (k c : lval) : M lval :=
 Definition cleanup : M unit :=
   fun s => (with_closed (with_tbl (add_ev (add_ev s EDisconnect) EClear) []), ROk tt).
 
+(* try: m  except Exception: h *)
+Definition try_exc {A} (m h : M A) : M A :=
+  fun s => match m s with
+           | (s', RRaise x) => if is_exception x then h s' else (s', RRaise x)
+           | r => r
+           end.
+(* _handle_ctxexit: raise exc  /  raise self._unbox_exc(exc)  (never returns normally) *)
+Definition ctx_raise (load : bool) (v : lval) : M lval :=
+  if load then
+    match v with
+    | LV p => dom x <- load_exc p; raise x
+    | LO o =>            (* val == EXC_STOP_ITERATION, then (modname, clsname), args, attrs, tbtext = val *)
+        dom _ <- touch OpEq o [];
+        dom r <- touch OpIter o [];
+        match r with
+        | LT [_; _; _; _] => unm
+        | LT _ => raise_std ValueError
+        | _ => unm
+        end
+    | LT [_; _; _; _] => unm
+    | LT _ => raise_std ValueError
+    | LP idp => dom _ <- converse 11 [LP idp]; unm
+    | _ => unm
+    end
+  else
+    match v with
+    | LO o => touch OpRaise o []
+    | _ => raise_std TypeError                 (* raise <not an exception> *)
+    end.
+
 Fixpoint eval (env loc : list lval) (e : hexp) {struct e} : M lval :=
   match e with
   | XParam i => match nth_error env i with Some v => ret v | None => unm end
@@ -772,11 +802,7 @@ Fixpoint eval (env loc : list lval) (e : hexp) {struct e} : M lval :=
   | XDecref k c => dom kv <- eval env loc k; dom cv <- eval env loc c; decref kv cv
   | XGuardCfg key ex body =>
       if String.eqb key "allow_pickle" then (if c_pickle C then eval env loc body else raise_std ex) else unm
-  | XTryExc body handler =>
-      fun s => match eval env loc body s with
-               | (s', RRaise x) => if is_exception x then eval env loc handler s' else (s', RRaise x)
-               | r => r
-               end
+  | XTryExc body handler => try_exc (eval env loc body) (eval env loc handler)
   | XIfNone c t e1 =>
       dom cv <- eval env loc c;
       match cv with LV PNone => eval env loc t | _ => eval env loc e1 end
@@ -793,20 +819,10 @@ Fixpoint eval (env loc : list lval) (e : hexp) {struct e} : M lval :=
   | XForward c h a =>
       dom cv <- eval env loc c; dom av <- eval env loc a;
       converse h [av]
-  | XCtxArgs e1 =>
+  | XCtxArgs load e1 =>
       dom v <- eval env loc e1;
       dom b <- truthy v;
-      if b then
-        fun s =>
-          let '(s', r) := match v with
-                          | LO o => touch OpRaise o [] s
-                          | _ => (s, RRaise (XStd TypeError))       (* raise <not an exception> *)
-                          end in
-          match r with
-          | RRaise x => if is_exception x then (s', ROk (LT [LOpq; LOpq; LOpq])) else (s', RRaise x)
-          | ROk _ => (s', RUnm)
-          | RUnm => (s', RUnm)
-          end
+      if b then try_exc (dom _ <- ctx_raise load v; unm) (ret (LT [LOpq; LOpq; LOpq]))
       else ret (LT [v; LV PNone; LV PNone])
   end.
 
@@ -958,6 +974,7 @@ Definition world_sem (w : world) (excs : list text) : sem unit :=
                     | OpIsinstance => if od_class d then ROk (LV (PBool false)) else RRaise (XStd TypeError)
                     | OpGetMethods => ROk (LV (od_methods d))
                     | OpFuncStr => ROk LAny
+                    | OpEq => ROk (LV (PBool false))
                     | _ => RUnm
                     end);
      s_val := fun op v _ =>
@@ -1020,7 +1037,7 @@ Definition nop_name (op : nop) : string :=
   match op with
   | OpCall => "call" | OpRepr => "repr" | OpStr => "str" | OpHash => "hash" | OpDir => "dir" | OpIter => "iter"
   | OpIslice => "islice" | OpBool => "bool" | OpDict => "dict" | OpRaise => "raise" | OpCmp => "cmp" | OpIndex => "index"
-  | OpIsinstance => "isinstance" | OpGetMethods => "getmethods" | OpIdPack => "idpack" | OpHasConn => "hasconn" | OpPickle => "pickle" | OpFuncStr => "funcstr"
+  | OpIsinstance => "isinstance" | OpGetMethods => "getmethods" | OpIdPack => "idpack" | OpHasConn => "hasconn" | OpPickle => "pickle" | OpFuncStr => "funcstr" | OpEq => "eq"
   end.
 Definition perm_idx (p : permkey) : Z := match p with PGet => 0 | PSet => 1 | PDel => 2 end%Z.
 Definition sx_of_oids (l : list oid) : sx := SL (map sN l).
